@@ -2,11 +2,13 @@ package c37
 
 import (
 	"bytes"
+	"encoding/json"
 	"fmt"
 	"os"
 	"os/exec"
 	"path/filepath"
 	"regexp"
+	"strconv"
 	"strings"
 
 	"nokvverif/internal/pbt"
@@ -20,7 +22,20 @@ type RaceCase struct {
 }
 
 func raceCases() []RaceCase {
-	return []RaceCase{{Cases: 600, Seed: pbt.Seed()*7 + 1}, {Cases: 600, Seed: pbt.Seed()*7 + 2}}
+	n := 600
+	if v, err := strconv.Atoi(os.Getenv("VERIF_RACE_CASES")); err == nil && v > 0 {
+		n = v // smoke tests
+	}
+	return []RaceCase{{Cases: n, Seed: pbt.Seed()*7 + 1}, {Cases: n, Seed: pbt.Seed()*7 + 2}}
+}
+
+var knownRaces = []struct {
+	id   string
+	subs []string
+}{
+	{"C37-write-panic-closed", []string{"kv.(*Entry).DecrRef", "kv.(*Entry).reset", "NoKV.(*request).DecrRef"}},
+	{"C37-read-during-close", []string{"utils.(*Closer).Close", "lsm.(*LSM).Close", "NoKV.(*DB).closeInternal"}},
+	{"C34-read-during-close", []string{"utils.(*Closer).Close", "lsm.(*LSM).Close", "NoKV.(*DB).closeInternal"}},
 }
 
 var childViolation = regexp.MustCompile(`(?m)^VIOLATION property=\S+ replay=(\S+)`)
@@ -39,11 +54,35 @@ func runRace(c RaceCase, r *pbt.Rec) error {
 	env := []string{}
 	for _, e := range os.Environ() {
 		if strings.HasPrefix(e, "VERIF_CHILD=") || strings.HasPrefix(e, "VERIF_REPLAY=") || strings.HasPrefix(e, "VERIF_TIER=") ||
-			strings.HasPrefix(e, "VERIF_CASES=") || strings.HasPrefix(e, "VERIF_SEED=") || strings.HasPrefix(e, "VERIF_SPEC=") || strings.HasPrefix(e, "VERIF_EVIDENCE=") {
+			strings.HasPrefix(e, "VERIF_CASES=") || strings.HasPrefix(e, "VERIF_SEED=") || strings.HasPrefix(e, "VERIF_SPEC=") || strings.HasPrefix(e, "VERIF_EVIDENCE=") ||
+			strings.HasPrefix(e, "VERIF_ROOT=") || strings.HasPrefix(e, "VERIF_KF=") {
 			continue
 		}
 		env = append(env, e)
 	}
+	// The child gets its own root: the effective known-findings list without replay files (so
+	// that phase 1 does not provoke the open findings, e.g. reads racing with Close, under the
+	// race detector) and no regress inputs; the search phase keeps the exclusions.
+	kfPath := os.Getenv("VERIF_KF")
+	if kfPath == "" {
+		kfPath = filepath.Join(pbt.VerifRoot(), "known_findings.json")
+	}
+	stripped := []byte(`{"findings":[]}`)
+	if b, rerr := os.ReadFile(kfPath); rerr == nil {
+		var kf struct {
+			Findings []map[string]any `json:"findings"`
+		}
+		if json.Unmarshal(b, &kf) == nil {
+			for _, f := range kf.Findings {
+				delete(f, "replay")
+			}
+			stripped, _ = json.Marshal(kf)
+		}
+	}
+	if werr := os.WriteFile(filepath.Join(tmp, "kf.json"), stripped, 0o644); werr != nil {
+		return pbt.Failf("harness", "%v", werr)
+	}
+	env = append(env, "VERIF_ROOT="+tmp, "VERIF_KF="+filepath.Join(tmp, "kf.json"))
 	env = append(env, "VERIF_TIER=quick", fmt.Sprintf("VERIF_CASES=%d", c.Cases), fmt.Sprintf("VERIF_SEED=%d", c.Seed),
 		"VERIF_SPEC=live", "VERIF_EVIDENCE="+tmp+"/evidence.json", "VERIF_MAXSHARDS=4", "GORACE=halt_on_error=0 log_path="+tmp+"/race")
 	cmd.Env = env
@@ -59,12 +98,43 @@ func runRace(c RaceCase, r *pbt.Rec) error {
 			}
 		}
 	}
-	if i := strings.Index(out, "WARNING: DATA RACE"); i >= 0 {
-		end := i + 6000
-		if end > len(out) {
-			end = len(out)
+	// Race reports caused by an open finding cannot be steered away from in a free-running
+	// child (e.g. the double release of a pooled entry when a plain write fails at a closing
+	// commit queue): they are counted; any other report is a failure.
+	for _, blk := range strings.Split(out, "WARNING: DATA RACE")[1:] {
+		if j := strings.Index(blk, "=================="); j >= 0 {
+			blk = blk[:j]
 		}
-		return pbt.Failf("data-race", "race detector report while running %d C37 cases under -race:\n%s", c.Cases, out[i:end])
+		known := ""
+		for _, k := range knownRaces {
+			if !pbt.Open(k.id) {
+				continue
+			}
+			for _, sub := range k.subs {
+				if strings.Contains(blk, sub) {
+					known = k.id
+				}
+			}
+		}
+		if known != "" {
+			r.Label("race-report-of-open-finding:" + known)
+			r.Excluded(1)
+			continue
+		}
+		if len(blk) > 6000 {
+			blk = blk[:6000]
+		}
+		return pbt.Failf("data-race", "race detector report while running %d C37 cases under -race:\nWARNING: DATA RACE%s", c.Cases, blk)
+	}
+	// keep the replay files of the child
+	if reps, _ := filepath.Glob(filepath.Join(tmp, "replays", "*.json")); len(reps) > 0 {
+		dst := filepath.Join(pbt.VerifRoot(), "replays")
+		_ = os.MkdirAll(dst, 0o755)
+		for _, rp := range reps {
+			if b, rerr := os.ReadFile(rp); rerr == nil {
+				_ = os.WriteFile(filepath.Join(dst, "race-"+filepath.Base(rp)), b, 0o644)
+			}
+		}
 	}
 	if m := childViolation.FindStringSubmatch(out); m != nil {
 		return pbt.Failf("race-child-violation", "the -race run of the check reported a violation (replay %s):\n%s", m[1], tail(out, 60))
